@@ -49,11 +49,14 @@ pub struct Block {
     pub died: u32,
     /// sequential id inside the case
     pub seq: u32,
+    /// survived the end of the case it was allocated in (harness memory allocated under tracking,
+    /// or a leak already reported): still verified when freed, invisible to the current case
+    pub stale: bool,
 }
 
 impl Block {
     pub fn none() -> Block {
-        Block { ptr: 0, size: 0, align: 1, base: 0, real_size: 0, real_align: 1, live: false, born: 0, died: 0, seq: u32::MAX }
+        Block { ptr: 0, size: 0, align: 1, base: 0, real_size: 0, real_align: 1, live: false, born: 0, died: 0, seq: u32::MAX, stale: true }
     }
 }
 
@@ -66,6 +69,7 @@ pub enum Event {
 struct Table {
     blocks: Vec<Block>,
     events: Vec<Event>,
+    next_seq: u32,
 }
 
 struct Spin<T> {
@@ -91,7 +95,7 @@ impl<T> Spin<T> {
     }
 }
 
-static TABLE: Spin<Table> = Spin::new(Table { blocks: Vec::new(), events: Vec::new() });
+static TABLE: Spin<Table> = Spin::new(Table { blocks: Vec::new(), events: Vec::new(), next_seq: 0 });
 static LIVE_BYTES: AtomicUsize = AtomicUsize::new(0);
 
 struct BypassGuard;
@@ -140,6 +144,9 @@ fn tracking_now() -> bool {
 }
 
 pub fn set_track(on: bool) -> bool {
+    if on {
+        EVER_TRACKED.store(true, Ordering::Relaxed);
+    }
     TRACK.try_with(|t| t.replace(on)).unwrap_or(false)
 }
 
@@ -196,7 +203,8 @@ unsafe impl GlobalAlloc for Tracker {
         }
         let step = STEP.load(Ordering::Relaxed);
         TABLE.with(|t| {
-            let seq = t.blocks.len() as u32;
+            let seq = t.next_seq;
+            t.next_seq += 1;
             t.blocks.push(Block {
                 ptr: ptr as usize,
                 size: layout.size(),
@@ -208,6 +216,7 @@ unsafe impl GlobalAlloc for Tracker {
                 born: step,
                 died: 0,
                 seq,
+                stale: false,
             });
             t.events.push(Event::Alloc(seq));
         });
@@ -241,7 +250,7 @@ unsafe impl GlobalAlloc for Tracker {
                     }
                     let copy = *b;
                     let seq = b.seq;
-                    if was_live {
+                    if was_live && !b.stale {
                         t.events.push(Event::Free(seq));
                     }
                     return Found::Exact(copy, was_live);
@@ -298,9 +307,14 @@ unsafe impl GlobalAlloc for Tracker {
                     );
                 }
                 LIVE_BYTES.fetch_sub(b.size, Ordering::Relaxed);
-                crate::sim::on_free(&b);
+                if !b.stale {
+                    crate::sim::on_free(&b);
+                }
                 check_redzones(&b);
-                if cfg!(feature = "asan") {
+                if b.stale {
+                    TABLE.with(|t| t.blocks.retain(|x| !(x.stale && x.ptr == b.ptr)));
+                }
+                if cfg!(feature = "asan") || b.stale {
                     System.dealloc(
                         b.base as *mut u8,
                         Layout::from_size_align_unchecked(b.real_size.max(1), b.real_align),
@@ -367,9 +381,18 @@ pub fn effects_since(mark: usize) -> Effects {
         TABLE.with(|t| {
             let mut e = Effects::default();
             for ev in &t.events[mark.min(t.events.len())..] {
+                let find = |s: u32| t.blocks.iter().find(|b| b.seq == s && !b.stale).copied();
                 match *ev {
-                    Event::Alloc(s) => e.allocs.push(t.blocks[s as usize]),
-                    Event::Free(s) => e.frees.push(t.blocks[s as usize]),
+                    Event::Alloc(s) => {
+                        if let Some(b) = find(s) {
+                            e.allocs.push(b)
+                        }
+                    }
+                    Event::Free(s) => {
+                        if let Some(b) = find(s) {
+                            e.frees.push(b)
+                        }
+                    }
                 }
             }
             e
@@ -379,7 +402,7 @@ pub fn effects_since(mark: usize) -> Effects {
 
 /// Blocks currently live (tracked, not freed).
 pub fn live_blocks() -> Vec<Block> {
-    internal(|| TABLE.with(|t| t.blocks.iter().filter(|b| b.live).copied().collect()))
+    internal(|| TABLE.with(|t| t.blocks.iter().filter(|b| b.live && !b.stale).copied().collect()))
 }
 
 pub fn all_blocks() -> Vec<Block> {
@@ -387,7 +410,7 @@ pub fn all_blocks() -> Vec<Block> {
 }
 
 pub fn block_by_seq(seq: u32) -> Option<Block> {
-    internal(|| TABLE.with(|t| t.blocks.get(seq as usize).copied()))
+    internal(|| TABLE.with(|t| t.blocks.iter().find(|b| b.seq == seq && !b.stale).copied()))
 }
 
 /// Which tracked block (newest first) contains `addr`.
@@ -397,7 +420,7 @@ pub fn classify(addr: usize) -> Option<Block> {
             t.blocks
                 .iter()
                 .rev()
-                .find(|b| addr >= b.ptr && addr < b.ptr + b.size.max(1))
+                .find(|b| !b.stale && addr >= b.ptr && addr < b.ptr + b.size.max(1))
                 .copied()
         })
     })
@@ -405,29 +428,37 @@ pub fn classify(addr: usize) -> Option<Block> {
 
 /// Block whose user pointer is exactly `ptr`.
 pub fn block_at(ptr: usize) -> Option<Block> {
-    internal(|| TABLE.with(|t| t.blocks.iter().rev().find(|b| b.ptr == ptr).copied()))
+    internal(|| TABLE.with(|t| t.blocks.iter().rev().find(|b| !b.stale && b.ptr == ptr).copied()))
 }
 
 /// End of a case: verify red zones of surviving blocks, really free everything, reset.
 /// Returns the blocks that were still live.
 pub fn case_end() -> Vec<Block> {
     internal(|| {
-        let blocks = TABLE.with(|t| {
-            t.events.clear();
-            std::mem::take(&mut t.blocks)
-        });
         let mut leaked = Vec::new();
-        for b in &blocks {
-            if b.live {
-                check_redzones(b);
-                leaked.push(*b);
+        let mut dead = Vec::new();
+        TABLE.with(|t| {
+            t.events.clear();
+            t.next_seq = 0;
+            let mut keep = Vec::new();
+            for mut b in std::mem::take(&mut t.blocks) {
+                if b.live {
+                    if !b.stale {
+                        check_redzones(&b);
+                        leaked.push(b);
+                        b.stale = true;
+                    }
+                    keep.push(b);
+                } else {
+                    dead.push(b);
+                }
             }
-            if b.live || !cfg!(feature = "asan") {
+            t.blocks = keep;
+        });
+        if !cfg!(feature = "asan") {
+            for b in &dead {
                 unsafe {
-                    System.dealloc(
-                        b.base as *mut u8,
-                        Layout::from_size_align_unchecked(b.real_size.max(1), b.real_align),
-                    );
+                    System.dealloc(b.base as *mut u8, Layout::from_size_align_unchecked(b.real_size.max(1), b.real_align));
                 }
             }
         }
